@@ -90,9 +90,9 @@ func linearizable(calls []hcall, fin bool, final []obsv) bool {
 func oracle(prog program, o *outcome) []failure {
 	fs := oracle2(prog, o, false)
 	if o.dr != nil {
-		// value-based predicates on the final observations after a divergence (no step intervals there: no linearizability check)
+		// value-based predicates on the final observations after the free-running completion (no step intervals there: no linearizability check)
 		for _, f := range oracle2(prog, o.dr, true) {
-			fs = append(fs, failure{f.sig, "left to run freely after leaving the model's step sequence: " + f.what})
+			fs = append(fs, failure{f.sig, o.drWhy + f.what})
 		}
 	}
 	return fs
